@@ -13,7 +13,7 @@ from consumer import Consumers
 from vlib import Check, ToolError
 
 PROP = "C11"
-POSITIONS = ["field", "alias", "aliascase", "variable", "inputfield", "recinputfield", "oneoffield", "enumvalue"]
+POSITIONS = ["field", "listfield", "alias", "aliascase", "variable", "inputfield", "recinputfield", "oneoffield", "enumvalue"]
 
 
 def snake(n):
@@ -66,6 +66,11 @@ def build(names, pos, norm, workdir, tag):
         obj_fields += [{"name": n, "type": tr("Int"), "dep": None} for n in names]
         sel = "  o {\n" + "\n".join("    %s" % n for n in names) + "\n  }"
         payload = {"o": {n: i for i, n in enumerate(names)}}
+    elif pos == "listfield":
+        # nullable list fields under skip_serializing_none (the one response position that option touches)
+        obj_fields += [{"name": n, "type": tr("Int", ["L"]), "dep": None} for n in names]
+        sel = "  o {\n" + "\n".join("    %s" % n for n in names) + "\n  }"
+        payload = {"o": {n: [i] for i, n in enumerate(names)}}
     elif pos == "alias":
         sel = "  o {\n" + "\n".join("    %s: x" % n for n in names) + "\n  }"
         payload = {"o": {n: i for i, n in enumerate(names)}}
@@ -166,6 +171,7 @@ def main(tier, replay=None, selftest=False):
                 sp, query, payload, vin = build(pack, pos, norm, workdir, tag)
                 jobs.append({"id": tag, "schema_path": sp, "query": query, "want_tokens": True,
                              "options": {"mode": "cli", "module_visibility": "pub", "normalization": norm,
+                                         "skip_serializing_none": pos == "listfield" and norm == "rust",
                                          "response_derives": "Debug, Serialize", "variables_derives": "Deserialize, Debug"}})
                 meta[tag] = (pos, norm, pack, sp, query, payload, vin)
     results, _ = vlib.gqlv("gen", jobs)
@@ -270,7 +276,7 @@ def main(tier, replay=None, selftest=False):
     ck.notes["keywords"] = len(kw)
     ck.assumptions += ["names that collide after the generator's own renaming (e.g. `self` / `Self`, `type` / `Type`) are placed in different modules",
                        "`true`, `false`, `null` are not legal enum value names in GraphQL and are not used as such"]
-    return ck.finish(exhaustive=True, rule="every keyword (52) and naming style of Names!Pool x 8 positions (incl. aliases that re-spell their field, members of recursive and of @oneOf inputs) x 2 normalizations; distinct = (name, position, normalization)")
+    return ck.finish(exhaustive=True, rule="every keyword (52) and naming style of Names!Pool x 9 positions (incl. nullable list fields under skip_serializing_none, aliases that re-spell their field, members of recursive and of @oneOf inputs) x 2 normalizations; distinct = (name, position, normalization)")
 
 
 if __name__ == "__main__":
